@@ -68,7 +68,9 @@ SRC_B = 'def last_without_newline(v):\n    w = v * 2\n    return w'
 # characters that str.splitlines() takes for line ends and the compiler does not: a form-feed page separator between definitions (Emacs / GNU
 # style), vertical tab, FS/GS/RS, NEL, U+2028, U+2029 inside string literals and comments — the lines of a file are what `\\n` separates
 SRC_C = ('def before_page(a):\n    return a + 1\n\x0c\ndef after_page(b):\n    s = "nel \x85 fs \x1c vt \x0b ls \u2028 ps \u2029 end"\n'
-         '    # comment with gs \x1d and rs \x1e and ls \u2028 inside\n    t = b + len(s)\n    return t\n\x0c\n\ndef last_page(c):\n    u = c * 3\n    return u\n')
+         '    # comment with gs \x1d and rs \x1e and ls \u2028 inside\n    t = b + len(s)\n    return t\n\x0c\n\ndef last_page(c):\n    u = c * 3\n    return u\n\n\n'
+         # lambdas in a table, one of them over several lines: its recorded lines lie after the line it starts on
+         'DISPATCH = {\n    "triple": lambda x: (\n        x * 3\n        + 1\n    ),\n    "inc": lambda y: y + 2,\n}\n')
 
 def funcs_of(fname, src):
     """(file, co_firstlineno, name, last line) of every function / lambda in the source"""
